@@ -6,6 +6,7 @@ import (
 
 	"git.defalsify.org/vise.git/db"
 	"vharness/c10"
+	"vharness/pgfake"
 	"vharness/vrt"
 )
 
@@ -19,6 +20,25 @@ func has(v *vrt.Ctx, s string, c byte) bool {
 		r = v.Or(r, s[i] == c)
 	}
 	return r
+}
+
+// classes marks the input classes of finding F9.
+func classes(v *vrt.Ctx, which int, s1, s2, k1, k2 string) {
+	dots := v.Or(v.Or(has(v, s1, '.'), has(v, s2, '.')), v.Or(has(v, k1, '.'), has(v, k2, '.')))
+	oneEmpty := (len(s1) == 0) != (len(s2) == 0)
+	v.Finding("F9-dot-separator-collision", v.Or(dots, oneEmpty))
+	if which == 1 || which == 2 {
+		slashes := v.Or(v.Or(has(v, s1, '/'), has(v, s2, '/')), v.Or(has(v, k1, '/'), has(v, k2, '/')))
+		v.Finding("F9-fs-path-separator-in-name", slashes)
+		first := func(s string) bool {
+			if len(s) == 0 {
+				return false
+			}
+			c := s[0]
+			return v.Or(v.Or(c == '1', c == '2'), v.Or(v.Or(c == '4', c == '8'), v.Or(c == 'P', c == '@')))
+		}
+		v.Finding("F9-fs-legacy-file-names", v.Or(v.Or(first(k1), first(k2)), v.Or(first(s1), first(s2))))
+	}
 }
 
 // Inject: two (type, session id, key) triples with arbitrary session and key
@@ -40,22 +60,7 @@ func Inject(v *vrt.Ctx) {
 			store.SetLock(t, false)
 		}
 	}
-	// finding classes (F9)
-	dots := v.Or(v.Or(has(v, s1, '.'), has(v, s2, '.')), v.Or(has(v, k1, '.'), has(v, k2, '.')))
-	oneEmpty := (len(s1) == 0) != (len(s2) == 0)
-	v.Finding("F9-dot-separator-collision", v.Or(dots, oneEmpty))
-	if which == 1 || which == 2 {
-		slashes := v.Or(v.Or(has(v, s1, '/'), has(v, s2, '/')), v.Or(has(v, k1, '/'), has(v, k2, '/')))
-		v.Finding("F9-fs-path-separator-in-name", slashes)
-		first := func(s string) bool {
-			if len(s) == 0 {
-				return false
-			}
-			c := s[0]
-			return v.Or(v.Or(c == '1', c == '2'), v.Or(v.Or(c == '4', c == '8'), v.Or(c == 'P', c == '@')))
-		}
-		v.Finding("F9-fs-legacy-file-names", v.Or(v.Or(first(k1), first(k2)), v.Or(first(s1), first(s2))))
-	}
+	classes(v, which, s1, s2, k1, k2)
 	same := t1 == t2 && k1 == k2
 	if same && t1&sessioned != 0 {
 		same = s1 == s2
@@ -85,6 +90,64 @@ func Inject(v *vrt.Ctx) {
 	v.Cover("C11/survives")
 }
 
+// List: two records under two (type, session id, key) triples, then a
+// listing (Dump) under the first triple's type and session with a symbolic
+// prefix: the record of the other triple is never listed - neither its value
+// nor, under the second session's name, its key - unless both triples address
+// the same scope. Backends that implement listing: filesystem, Postgres.
+func List(v *vrt.Ctx) {
+	which := v.Param("backend")
+	maxlen := v.Param("maxlen")
+	ctx := context.Background()
+	store := c10.Open(v, ctx, which)
+	if which == 3 {
+		var srv *pgfake.Server
+		store, srv = c10.OpenPg()
+		srv.SortedScan = v.Bool("index-scan")
+	}
+	t1 := types[v.Choice("type-one", len(types))]
+	t2 := types[v.Choice("type-two", len(types))]
+	s1 := v.Str("session-one", v.Choice("sessionlen-one", maxlen+1))
+	s2 := v.Str("session-two", v.Choice("sessionlen-two", maxlen+1))
+	k1 := v.Str("key-one", 1+v.Choice("keylen-one", maxlen))
+	k2 := v.Str("key-two", 1+v.Choice("keylen-two", maxlen))
+	for _, t := range []uint8{t1, t2} {
+		if t&sessioned == 0 {
+			store.SetLock(t, false)
+		}
+	}
+	classes(v, which, s1, s2, k1, k2)
+	sameScope := t1 == t2
+	if sameScope && t1&sessioned != 0 {
+		sameScope = s1 == s2
+	}
+	store.SetPrefix(t1)
+	store.SetSession(s1)
+	v.Assume(store.Put(ctx, []byte(k1), []byte("A")) == nil)
+	store.SetPrefix(t2)
+	store.SetSession(s2)
+	v.Assume(store.Put(ctx, []byte(k2), []byte("B")) == nil)
+	store.SetPrefix(t1)
+	store.SetSession(s1)
+	pfx := k1[:v.Choice("prefixlen", 2)]
+	d, err := store.Dump(ctx, []byte(pfx))
+	if err != nil {
+		v.Cover("C11/list-error")
+		return
+	}
+	for j := 0; j < 3; j++ {
+		kk, vv := d.Next(ctx)
+		if kk == nil {
+			break
+		}
+		if !sameScope {
+			v.Assert(string(vv) != "B", "C11/other-scope-is-not-listed")
+		}
+	}
+	v.Cover("C11/listed")
+}
+
 var Harnesses = map[string]func(*vrt.Ctx){
+	"List":   List,
 	"Inject": Inject,
 }
